@@ -296,7 +296,7 @@ def nontrivial(flat):
 # ------------------------------------------------------------------ L1
 def correspondence(ctx):
     rng = ctx.rng
-    n = ctx.n(100, 1500)
+    n = ctx.n(100, 600)
     dis, cases, meta = [], [], []
     for i in range(n):
         text = gen_case(rng, adversarial=(i % 3 == 2))
@@ -454,7 +454,7 @@ PROBES = [
 
 def search(ctx, deep=False):
     rng = ctx.rng
-    n = ctx.n(80, 1200) * (3 if deep else 1)
+    n = ctx.n(80, 500) * (3 if deep else 1)
     texts = []
     for i in range(n):
         t = gen_case(rng, adversarial=(i % 4 == 3))
